@@ -56,6 +56,19 @@ func NewSnapshot(withExamples bool) (*Snapshot, error) {
 	return &Snapshot{Dir: dst, base: base}, nil
 }
 
+// AddFixtures copies /verif/fixtures into the snapshot as packages of the gqlgen module
+// (<module>/verif_fixtures/<name>), so that positive examples are analysed in the same program.
+func (s *Snapshot) AddFixtures(verifDir string) error {
+	src := filepath.Join(verifDir, "fixtures")
+	if _, err := os.Stat(src); err != nil {
+		return nil
+	}
+	if out, err := exec.Command("rsync", "-a", src+"/", filepath.Join(s.Dir, "verif_fixtures")+"/").CombinedOutput(); err != nil {
+		return fmt.Errorf("fixtures rsync: %v: %s", err, out)
+	}
+	return nil
+}
+
 func (s *Snapshot) Close() {
 	if s != nil && s.base != "" {
 		os.RemoveAll(s.base)
